@@ -49,16 +49,19 @@ def run(R):
     builds = ["native", "noasm", "no128", "portable"]
     R.build_all(builds)
     cfgs = [("native", name, env) for name, env in masks()] + [(b, "full", {}) for b in builds[1:]]
-    traces, corp = [], {}
+    traces, corp, jobs = [], {}, []
     for i, (variant, name, env) in enumerate(cfgs):
         exe = R.cc("init_race", ["init_race.c"], variant)
         tp = R.path("c10", "init-%d.ndjson" % i)
-        R.run([exe, str(R.seed), "2", tp], env=env, timeout=600)
+        jobs.append(([exe, str(R.seed), "2", tp], env, (0,)))
         traces.append((tp, variant, name, env))
         cexe = R.cc("corpus_driver", ["corpus_driver.c"], variant, extra=["-Wno-deprecated-declarations"])
         cp = R.path("c10", "corpus-%d.ndjson" % i)
-        R.run([cexe, str(R.seed), cp] + ([] if thorough else ["quick"]), env=env, ok_codes=(0, 70), timeout=1800)
+        jobs.append(([cexe, str(R.seed), cp] + ([] if thorough else ["quick"]), env, (0, 70)))
         corp[i] = cp
+    from concurrent.futures import ThreadPoolExecutor
+    with ThreadPoolExecutor(max_workers=vlib.NCPU) as ex:
+        list(ex.map(lambda j: R.run(j[0], env=j[1], ok_codes=j[2], timeout=3000), jobs))
     # detection + picks
     res = R.tlc_shards("sys/TraceInit.tla", "TraceInit.cfg", [{"TRACE": t[0]} for t in traces], timeout=900)
     picked = set()
